@@ -1,10 +1,9 @@
-// dev-c16: throw-away driver for the C16 check.
 package main
 
 import (
 	"os"
 
-	"verifharness/checks/c16"
+	"verifharness/checks/c20"
 	"verifharness/core"
 )
 
@@ -13,7 +12,7 @@ func main() {
 	if len(os.Args) > 1 {
 		tier = os.Args[1]
 	}
-	ctx := core.New("C16", tier, "exploration")
-	c16.Run(ctx)
+	ctx := core.New("C20", tier, "exploration")
+	c20.Run(ctx)
 	ctx.Finish()
 }
